@@ -752,3 +752,463 @@ def ob_insert_idle(ctx, tier):
     if any(re.search(r"as Drop>::drop\(_1: &mut Idle", fn.header) or re.search(r"::drop\(_1: &mut (sources::)?Idle<", fn.header) for fn in ctx.fns.values()):
         c.failing.append("idle_handle_has_a_drop_impl")
     return c.res(paths + cpaths + p3 + p4, cfg)
+
+
+# =====================================================================================
+# inlining rules: (callee regex at the call site, regex on the header of the body to inline)
+INL_PING = [
+    (r"^<(eventfd::)?PingSource as (sources::)?EventSource>::process_events::<", r"::process_events\(_1: &mut eventfd::PingSource"),
+    (r"^<(sources::generic::)?Generic<ArcAsFd> as (sources::)?EventSource>::process_events::<", r"::process_events\(_1: &mut sources::generic::Generic<F, E>"),
+    (r"^drain_ping$", r"^fn drain_ping\("),
+    (r"^send_ping$", r"^fn send_ping\("),
+    (r"^(eventfd::)?Ping::ping$", r"::ping\(_1: &eventfd::Ping\)"),
+]
+PING_PE = r"::process_events\(_1: &mut eventfd::PingSource"
+
+
+def ok_payload_disc(v):
+    """discriminant of the PostAction inside an Ok(..) return value"""
+    if isinstance(v, Enum) and "Ok" in v.payloads and 0 in v.payloads["Ok"]:
+        return disc_of(v.payloads["Ok"][0])
+    return None
+
+
+def is_cb(e):
+    return e.kind == "callback" or (e.kind == "call" and e.callee.startswith("closure:"))
+
+
+def atomics(p, op=None, field=None):
+    out = []
+    for e in p.trace:
+        m = re.match(r"^Atomic(?:Bool)?::<bool>::(\w+)$|^AtomicBool::(\w+)$", e.callee) if e.kind == "call" else None
+        if not m:
+            continue
+        o = m.group(1) or m.group(2)
+        if op and o != op:
+            continue
+        if field is not None and not repr(e.args[0]).endswith("." + str(field)):
+            continue
+        out.append(e)
+    return out
+
+
+def bool_is(v, val):
+    return z3.is_true(z3.simplify(v)) if val else z3.is_false(z3.simplify(v))
+
+
+def struct_fields(ctx, name):
+    """field names of `struct name { .. }` in declaration order (= drop order, = MIR field index)"""
+    import glob, os
+    for f in glob.glob(os.path.join(ctx.src_dir, "**", "*.rs"), recursive=True):
+        t = re.sub(r"//[^\n]*", "", open(f).read())
+        m = re.search(r"\bstruct\s+%s\s*(?:<[^>{]*>)?\s*\{([^}]*)\}" % re.escape(name), t)
+        if m:
+            out = []
+            for part in m.group(1).split(","):
+                part = re.sub(r"#\[[^\]]*\]", "", part).strip()
+                mm = re.match(r"(?:pub(?:\([^)]*\))?\s+)?(\w+)\s*:", part)
+                if mm:
+                    out.append(mm.group(1))
+            return out
+    raise Unsupported("struct %s not found in the source" % name)
+
+
+# ---------------------------------------------------------------- C11: run / block_on / LoopSignal
+def ob_run(ctx, tier):
+    """run(): stop is reset first; every iteration starts with a load of stop; Ok is returned only
+    right after a load that returned true; a dispatch error is returned at once; the per-iteration
+    closure runs after every successful dispatch"""
+    stop_i = struct_fields(ctx, "Signals").index("stop")
+    f, paths, cfg = run_fn(ctx, r"::run\(_1: &mut EventLoop", unroll=1)
+    c = Chk()
+    for p in paths:
+        at = atomics(p)
+        if not at or at[0].callee.split("::")[-1] != "store" or not bool_is(at[0].args[1], False) or not repr(at[0].args[0]).endswith(".%d" % stop_i):
+            c.fail("run_does_not_reset_stop_first", p)
+            continue
+        if any(a.callee.split("::")[-1] in ("store", "swap") for a in at[1:]):
+            c.fail("run_writes_stop_inside_the_loop", p)
+        ds = calls(p, r"EventLoop::<.*>::dispatch::<")
+        loads = atomics(p, "load", stop_i)
+        for d in ds:
+            prev = [l for l in loads if l.idx < d.idx]
+            if not prev or (ds.index(d) > 0 and prev[-1].idx < ds[ds.index(d) - 1].idx):
+                c.fail("dispatch_without_checking_stop", p)
+        if p.status == "return" and isinstance(p.ret, Enum):
+            c.witness = True
+            if p.ret.disc == 0:
+                last = loads[-1] if loads else None
+                if last is None or any(e.idx > last.idx and e.kind in ("call", "callback") for e in p.trace) or \
+                   not entails(ctx, p.pc, last.ret)[0]:
+                    c.fail("run_returns_ok_without_stop_request", p)
+            else:
+                if not ds or not entails(ctx, p.pc, dz(ds[-1].ret.disc) == 1)[0]:
+                    c.fail("run_error_without_dispatch_error", p)
+        for d in ds:
+            ok = entails(ctx, p.pc, dz(d.ret.disc) == 0)[0]
+            nxt = [e for e in p.trace[d.idx + 1:] if e.kind in ("call", "callback")]
+            if ok and (not nxt or not is_cb(nxt[0])) and p.status != "panic":
+                c.fail("per_iteration_closure_not_called_after_dispatch", p)
+    return c.res(paths, cfg)
+
+
+def ob_block_on(ctx, tier):
+    """block_on(): stop reset and future_ready set first; per iteration: load(stop) (true => None),
+    then future_ready is consumed with an atomic swap(false) and the future is polled iff it
+    was set; Ready => Some(output) at once; otherwise dispatch_events(None), idles, closure.
+    future_ready is never written false by the loop except through that swap."""
+    fs = struct_fields(ctx, "Signals")
+    stop_i, fr_i = fs.index("stop"), fs.index("future_ready")
+    f, paths, cfg = run_fn(ctx, r"::block_on\(_1: &mut EventLoop", unroll=1)
+    c = Chk()
+    for p in paths:
+        at = atomics(p)
+        if len(at) < 2 or not (at[0].callee.endswith("store") and repr(at[0].args[0]).endswith(".%d" % stop_i) and bool_is(at[0].args[1], False)
+                               and at[1].callee.endswith("store") and repr(at[1].args[0]).endswith(".%d" % fr_i) and bool_is(at[1].args[1], True)):
+            c.fail("block_on_initialisation", p)
+            continue
+        polls = calls(p, r" as Future>::poll$")
+        for a in at[2:]:
+            on_fr = repr(a.args[0]).endswith(".%d" % fr_i)
+            op = a.callee.split("::")[-1]
+            if on_fr and op == "store" and bool_is(a.args[1], False):
+                c.fail("future_ready_cleared_by_plain_store", p)
+            if on_fr and op == "load":
+                c.fail("future_ready_read_without_consuming_it", p)
+            if not on_fr and op != "load":
+                c.fail("block_on_writes_stop_inside_the_loop", p)
+        swaps = [a for a in atomics(p, "swap", fr_i)]
+        for q in polls:
+            c.witness = True
+            sw = [s for s in swaps if s.idx < q.idx]
+            if not sw or not bool_is(sw[-1].args[1], False) or not entails(ctx, p.pc, sw[-1].ret)[0]:
+                c.fail("future_polled_without_consuming_a_wake", p)
+        for s_ in swaps:
+            woke = entails(ctx, p.pc, s_.ret)[0]
+            nxt = [e for e in p.trace[s_.idx + 1:] if e.kind in ("call", "callback") and "as_mut" not in e.callee]
+            if woke and (not nxt or not re.search(r" as Future>::poll$", nxt[0].callee)) and p.status != "panic":
+                c.fail("wake_not_followed_by_a_poll", p)
+        if p.status == "return" and isinstance(p.ret, Enum) and p.ret.disc == 0:
+            out = p.ret.payloads["Ok"][0]
+            od = disc_of(out)
+            some = entails(ctx, p.pc, dz(od) == 1)[0]
+            if some:
+                if not polls or not entails(ctx, p.pc, dz(polls[-1].ret.disc) == 0)[0]:
+                    c.fail("some_returned_without_ready_future", p)
+            else:
+                loads = atomics(p, "load", stop_i)
+                if not loads or not entails(ctx, p.pc, loads[-1].ret)[0]:
+                    c.fail("none_returned_without_stop_request", p)
+        for q in polls:
+            ready = entails(ctx, p.pc, dz(q.ret.disc) == 0)[0]
+            if ready and not (p.status == "return" and not [e for e in p.trace[q.idx + 1:] if e.kind in ("call", "callback")]):
+                c.fail("ready_future_not_returned_at_once", p)
+            pending = entails(ctx, p.pc, dz(q.ret.disc) == 1)[0]
+            if pending:
+                de = calls(p, r"::dispatch_events$", q.idx)
+                if not de or not (isinstance(de[0].args[1], Enum) and de[0].args[1].disc == 0):
+                    c.fail("pending_future_not_followed_by_blocking_dispatch", p)
+    return c.res(paths, cfg)
+
+
+def ob_signal(ctx, tier):
+    """LoopSignal::stop only stores stop=true; wakeup only notifies the poller; the block_on waker
+    stores future_ready=true BEFORE it notifies"""
+    fs = struct_fields(ctx, "Signals")
+    stop_i, fr_i = fs.index("stop"), fs.index("future_ready")
+    c = Chk()
+    allp = []
+    f, paths, cfg = run_fn(ctx, r"^fn loop_logic::<impl at [^>]*>::stop\(_1: &LoopSignal")
+    allp += paths
+    for p in paths:
+        at = atomics(p)
+        if len(at) != 1 or not at[0].callee.endswith("store") or not bool_is(at[0].args[1], True) or not repr(at[0].args[0]).endswith(".%d" % stop_i):
+            c.fail("stop_does_not_store_true_into_stop", p)
+        c.witness = True
+    f, paths, cfg = run_fn(ctx, r"^fn loop_logic::<impl at [^>]*>::wakeup\(_1: &LoopSignal")
+    allp += paths
+    for p in paths:
+        if not calls(p, r"Notifier::notify$") or atomics(p):
+            c.fail("wakeup_does_not_notify", p)
+    f, paths, cfg = run_fn(ctx, r"^fn sys::<impl at [^>]*>::notify\(_1: &Notifier")
+    allp += paths
+    for p in paths:
+        if not calls(p, r"Poller::notify$"):
+            c.fail("notifier_does_not_reach_the_poller", p)
+    for nm in ("wake", "wake_by_ref"):
+        f, paths, cfg = run_fn(ctx, r"::block_on::<impl at [^>]*>::%s\(" % nm)
+        allp += paths
+        for p in paths:
+            at = atomics(p)
+            no = calls(p, r"Notifier::notify$")
+            if len(at) != 1 or not at[0].callee.endswith("store") or not bool_is(at[0].args[1], True) or not repr(at[0].args[0]).endswith(".%d" % fr_i):
+                c.fail("waker_does_not_set_future_ready", p)
+            elif not no or no[0].idx < at[0].idx:
+                c.fail("waker_notifies_before_setting_future_ready", p)
+    return c.res(allp, cfg)
+
+
+# ---------------------------------------------------------------- C04: channel
+MPSC = r"std::sync::mpsc::(Sync)?Sender::<.*>::"
+
+
+def ob_chan_send(ctx, tier):
+    """Sender::send enqueues first and pings iff the enqueue succeeded; SyncSender::try_send pings
+    iff Ok or Full; SyncSender::send = try_send, and on Full a blocking enqueue followed by a
+    ping; PingOnDrop pings; in both sender structs the queue handle is declared (= dropped)
+    before the wake guard"""
+    c = Chk()
+    allp = []
+    f, paths, cfg = run_fn(ctx, r"::send\(_1: &channel::Sender<T>")
+    allp += paths
+    for p in paths:
+        en = calls(p, MPSC + "send$")
+        pg = calls(p, r"Ping::ping$")
+        if len(en) != 1:
+            c.fail("send_shape", p)
+            continue
+        c.witness = True
+        ok = entails(ctx, p.pc, dz(en[0].ret.disc) == 0)[0]
+        if ok and (len(pg) != 1 or pg[0].idx < en[0].idx):
+            c.fail("send_without_wakeup_after_enqueue", p)
+        if not ok and pg:
+            c.fail("wakeup_for_failed_send", p)
+        if (ok and not ret_is(p, 0)) or (not ok and not ret_is(p, 1)):
+            c.fail("send_result_not_passed_through", p)
+    f, paths, cfg = run_fn(ctx, r"::try_send\(_1: &channel::SyncSender<T>")
+    allp += paths
+    for p in paths:
+        en = calls(p, MPSC + "try_send$")
+        pg = calls(p, r"Ping::ping$")
+        if len(en) != 1:
+            c.fail("try_send_shape", p)
+            continue
+        r = en[0].ret
+        ok = entails(ctx, p.pc, dz(r.disc) == 0)[0]
+        full = False
+        if not ok and "Err" in r.payloads:
+            full = entails(ctx, p.pc, dz(disc_of(r.payloads["Err"][0])) == 0)[0]
+        if (ok or full) != (len(pg) == 1) or (pg and pg[0].idx < en[0].idx):
+            c.fail("try_send_wakeup_iff_ok_or_full", p)
+    f, paths, cfg = run_fn(ctx, r"::send\(_1: &channel::SyncSender<T>")
+    allp += paths
+    for p in paths:
+        ts = calls(p, r"SyncSender::<T>::try_send$")
+        bl = calls(p, MPSC + "send$")
+        pg = calls(p, r"Ping::ping$")
+        if len(ts) != 1 or (ts[0].callee.startswith("std::")):
+            c.fail("sync_send_does_not_try_first", p)
+            continue
+        r = ts[0].ret
+        full = "Err" in r.payloads and entails(ctx, p.pc, z3.And(dz(r.disc) == 1, dz(disc_of(r.payloads["Err"][0])) == 0))[0]
+        if full:
+            if len(bl) != 1:
+                c.fail("sync_send_full_does_not_block", p)
+            elif entails(ctx, p.pc, dz(bl[0].ret.disc) == 0)[0] and (not pg or pg[0].idx < bl[0].idx):
+                c.fail("sync_send_blocking_enqueue_without_wakeup", p)
+        elif bl:
+            c.fail("sync_send_blocks_without_full", p)
+    f, paths, cfg = run_fn(ctx, r"::drop\(_1: &mut PingOnDrop\)")
+    allp += paths
+    for p in paths:
+        if len(calls(p, r"Ping::ping$")) != 1:
+            c.fail("ping_on_drop_does_not_ping", p)
+    for st_ in ("Sender", "SyncSender"):
+        flds = None
+        import glob, os
+        t = re.sub(r"//[^\n]*", "", open(os.path.join(ctx.src_dir, "sources", "channel.rs")).read())
+        m = re.search(r"\bstruct\s+%s\s*<T>\s*\{([^}]*)\}" % st_, t)
+        if not m:
+            raise Unsupported("struct %s<T>" % st_)
+        names = re.findall(r"(\w+)\s*:", m.group(1))
+        if names.index("sender") > names.index("ping"):
+            c.failing.append("wake_guard_dropped_before_queue_handle_in_" + st_)
+    return c.res(allp, cfg)
+
+
+CHAN_PE = r"::process_events\(_1: &mut Channel<T>"
+
+
+def ob_chan_process(ctx, tier):
+    """Channel::process_events (ping source and closures inlined): one try_recv per iteration;
+    Ok(v) => callback(Msg(v)); Empty => stop without callback; Disconnected => exactly one
+    callback(Closed), stop, and the source returns Remove; nothing after Closed; if the batch limit
+    ends the loop (neither Empty nor Disconnected seen) the source pings itself and returns
+    Continue; the batch limit is min(capacity+1 (saturating), 1024) >= 1"""
+    c = Chk()
+    f, paths, cfg = run_fn(ctx, CHAN_PE, unroll=1, inline=INL_PING, key="chan")
+    n_self = 0
+    for p in paths:
+        if p.status == "panic":
+            continue
+        tr = calls(p, r"mpsc::Receiver::<T>::try_recv$")
+        cbs = [e for e in p.trace if is_cb(e) and e.args and any(isinstance(a, Enum) and enum_name(a) in ("Msg", "Closed") for a in e.args)]
+        closed = [e for e in cbs if any(isinstance(a, Enum) and enum_name(a) == "Closed" for a in e.args)]
+        nexts = [e for e in p.trace if e.kind == "iter_next"]
+        if tr:
+            c.witness = True
+        # each try_recv outcome
+        for t in tr:
+            r = t.ret
+            okm = entails(ctx, p.pc, dz(r.disc) == 0)[0]
+            after = [e for e in p.trace[t.idx + 1:] if e.kind in ("call", "callback", "iter_next")]
+            if okm:
+                if not after or not (is_cb(after[0]) and any(isinstance(a, Enum) and enum_name(a) == "Msg" for a in after[0].args)):
+                    c.fail("message_not_delivered", p)
+                else:
+                    msg = [a for a in after[0].args if isinstance(a, Enum) and enum_name(a) == "Msg"][0]
+                    if msg.payloads["Msg"][0] is not r.payloads["Ok"][0]:
+                        c.fail("delivered_message_is_not_the_received_one", p)
+            else:
+                ed = disc_of(r.payloads["Err"][0]) if "Err" in r.payloads else None
+                empty = ed is not None and entails(ctx, p.pc, dz(ed) == 0)[0]
+                if empty:
+                    if any(e.kind == "iter_next" or re.search(r"try_recv$", e.callee) or is_cb(e) for e in after if e.idx < (after[-1].idx + 1) and (e.kind != "call" or "try_recv" in e.callee)):
+                        c.fail("processing_continues_after_empty", p)
+                else:
+                    if not after or not (is_cb(after[0]) and after[0] in closed):
+                        c.fail("closed_not_delivered_on_disconnect", p)
+                    if any(e.kind == "iter_next" or is_cb(e) or re.search(r"try_recv$", e.callee) for e in after[1:]):
+                        c.fail("events_after_closed", p)
+        if len(closed) > 1:
+            c.fail("closed_delivered_twice", p)
+        if p.status != "return" or not isinstance(p.ret, Enum) or p.ret.disc != 0:
+            continue
+        pa = ok_payload_disc(p.ret)
+        selfping = [e for e in calls(p, r"rustix::io::write") if True]
+        if closed:
+            if not entails(ctx, p.pc, dz(pa) == 3)[0]:
+                c.fail("closed_channel_not_removed", p)
+        # exhaustion: the last iter_next returned None and no Empty/Disconnected was seen
+        if nexts and nexts[-1].callee == "None":
+            n_self += 1
+            if not selfping:
+                c.fail("batch_limit_reached_without_self_wakeup", p)
+            if not entails(ctx, p.pc, dz(pa) == 0)[0]:
+                c.fail("batch_limit_reached_but_not_continue", p)
+        elif selfping and not closed:
+            pass
+    # the batch limit value
+    rng = None
+    for p in paths:
+        for e in p.trace:
+            if e.kind == "iter_next" and isinstance(e.args[0], Ref):
+                try:
+                    rv = e.args[0].obj.value
+                    rng = rv.fields[1] if isinstance(rv, Agg) else None
+                except Exception:
+                    rng = None
+                if rng is not None:
+                    break
+        if rng is not None:
+            break
+    if rng is None or not z3.is_bv(rng):
+        c.failing.append("batch_limit_not_found")
+    else:
+        s = z3.Solver()
+        cap = [v for v in z3util_vars(rng)]
+        if len(cap) != 1:
+            c.failing.append("batch_limit_depends_on_%d_values" % len(cap))
+        else:
+            cp = cap[0]
+            ref = z3.If(z3.ULE(z3.If(cp == z3.BitVecVal(2**64 - 1, 64), cp, cp + 1), z3.BitVecVal(1024, 64)),
+                        z3.If(cp == z3.BitVecVal(2**64 - 1, 64), cp, cp + 1), z3.BitVecVal(1024, 64))
+            s.add(rng != ref)
+            ctx.queries += 1
+            if s.check() != z3.unsat:
+                c.failing.append("batch_limit_is_not_min_of_capacity_plus_one_and_1024")
+                c.cex = c.cex or ("batch limit = %s; differs for %s" % (z3.simplify(rng), s.model()))
+    return c.res(paths, cfg, "paths ending by exhaustion of the batch: %d" % n_self)
+
+
+def enum_name(v):
+    for k in v.payloads:
+        return k
+    return v.name
+
+
+def z3util_vars(e):
+    seen, out = set(), []
+
+    def walk(x):
+        if x.get_id() in seen:
+            return
+        seen.add(x.get_id())
+        if z3.is_const(x) and x.decl().kind() == z3.Z3_OP_UNINTERPRETED:
+            out.append(x)
+        for ch in x.children():
+            walk(ch)
+    walk(e)
+    return out
+
+
+# ---------------------------------------------------------------- C03: ping (MIR twin of K ping-0)
+def ob_ping(ctx, tier):
+    """Ping::ping writes exactly the 8 bytes of 2u64 to the eventfd (EAGAIN swallowed); dropping the
+    last handle writes exactly 1u64; PingSource::process_events: foreign token => nothing; else
+    exactly one read; read error => propagated, no callback; callback iff counter & !1 != 0;
+    Remove iff counter & 1 != 0, else Continue"""
+    c = Chk()
+    allp = []
+    for rx, val, nm in ((r"::ping\(_1: &eventfd::Ping\)", 2, "ping"), (r"::drop\(_1: &mut FlagOnDrop\)", 1, "close")):
+        f, paths, cfg = run_fn(ctx, rx, inline=INL_PING, key="ping")
+        allp += paths
+        for p in paths:
+            if p.status == "panic" and not calls(p, r"rustix::io::write"):
+                continue
+            wr = calls(p, r"rustix::io::write")
+            if len(wr) != 1:
+                c.fail(nm + "_does_not_write_exactly_once", p)
+                continue
+            c.witness = True
+            buf = wr[0].args[1]
+            v = None
+            try:
+                bv = ctx_read(buf)
+                v = bv.fields[0] if isinstance(bv, Agg) and getattr(bv, "bytes_of", False) else None
+            except Exception:
+                pass
+            if v is None or not z3.is_bv_value(z3.simplify(v)) or z3.simplify(v).as_long() != val:
+                c.fail(nm + "_writes_wrong_increment", p)
+    f, paths, cfg = run_fn(ctx, PING_PE, inline=INL_PING, key="ping")
+    allp += paths
+    for p in paths:
+        rd = calls(p, r"rustix::io::read")
+        cbs = [e for e in p.trace if is_cb(e)]
+        if p.status == "panic":
+            continue
+        if not rd:
+            if cbs:
+                c.fail("callback_without_reading_the_counter", p)
+            continue
+        if len(rd) != 1:
+            c.fail("counter_read_more_than_once", p)
+        if entails(ctx, p.pc, dz(rd[0].ret.disc) == 1)[0]:
+            if cbs or not ret_is(p, 1):
+                c.fail("read_error_not_propagated", p)
+            continue
+        if not ret_is(p, 0):
+            continue
+        ctr = [v for v in z3util_vars(z3.And(*p.pc)) if str(v).startswith("i_bytes_")]
+        if len(ctr) != 1:
+            c.fail("counter_value_not_identified", p)
+            continue
+        k = ctr[0]
+        pa = ok_payload_disc(p.ret)
+        fact_cb = (z3.LShR(k, 1) != 0) if cbs else (z3.LShR(k, 1) == 0)
+        if not entails(ctx, p.pc, fact_cb)[0]:
+            c.fail("callback_iff_ping_increment_present", p)
+        if len(cbs) > 1:
+            c.fail("more_than_one_callback_per_drain", p)
+        fact_rm = z3.If((k & 1) != 0, dz(pa) == 3, dz(pa) == 0)
+        if not entails(ctx, p.pc, fact_rm)[0]:
+            c.fail("remove_iff_close_marker", p)
+    return c.res(allp, cfg)
+
+
+def ctx_read(ref):
+    v = ref.obj.value
+    for step in ref.path:
+        if step[0] == "f":
+            v = v.fields[step[1]]
+    return v
